@@ -48,6 +48,9 @@ def configs(tier, seed):
         for w in WIRINGS:
             add(n=3, kernel=k, wiring=w, outlier_prior=0.0, N=2, threshold=0.5, alpha=1.0)
             add(n=3, kernel=k, wiring=w, outlier_prior=0.2, N=2, threshold=0.5, alpha=1.0, grid=3)
+    # n = 4 once in the quick tier: the smallest size at which a clone can have two children one of
+    # which has descendants (the shape several order-counting defects need)
+    add(n=4, kernel="fully-adapted", wiring="library", outlier_prior=0.0, N=2, threshold=0.5, alpha=1.0, grid=3)
     if tier == "thorough":
         for k in KERNELS:
             for w in WIRINGS:
@@ -59,7 +62,9 @@ def configs(tier, seed):
                 add(n=2, kernel=k, wiring=w, outlier_prior=0.2, N=4, threshold=0.5, alpha=1.0)
             for kind, dims in (("flat", 1), ("peaked", 1), ("seeded", 1), ("generic", 2)):
                 add(n=3, kernel=k, wiring="library", outlier_prior=0.0, N=2, threshold=0.5, alpha=1.3, data=kind, dims=dims, seed=seed)
-            add(n=4, kernel=k, wiring="library", outlier_prior=0.0, N=2, threshold=0.5, alpha=1.0, grid=3)
+            if k != "fully-adapted":
+                add(n=4, kernel=k, wiring="library", outlier_prior=0.0, N=2, threshold=0.5, alpha=1.0, grid=3)
+        add(n=4, kernel="semi-adapted", wiring="run", outlier_prior=0.0, N=2, threshold=1.0, alpha=2.5, grid=3)
     return out
 
 
